@@ -381,13 +381,22 @@ def parse_eval(out):
 # ----------------------------------------------------------------------------
 
 def load_known():
-    p = os.path.join(VERIF, 'KNOWN_FINDINGS.jsonl')
+    """KNOWN_FINDINGS.txt -> list of dict(status, property, id, what, commit)"""
+    p = os.path.join(VERIF, 'KNOWN_FINDINGS.txt')
     out = []
     if os.path.exists(p):
         for line in open(p):
             line = line.strip()
-            if line and not line.startswith('#'):
-                out.append(json.loads(line))
+            if not line or line.startswith('#'):
+                continue
+            m = re.match(r'known: property=(\S+) id=(\S+) (.*)$', line)
+            if m:
+                out.append({'status': 'known', 'property': m.group(1), 'id': m.group(2), 'what': m.group(3)})
+                continue
+            m = re.match(r'fixed: property=(\S+) (\S+) (.*)$', line)
+            if m:
+                out.append({'status': 'fixed', 'property': m.group(1), 'commit': m.group(2), 'what': m.group(3),
+                            'id': None})
     return out
 
 
